@@ -1,1 +1,671 @@
-// harnesses for table (included into /repo/src/table.rs under cfg(kani))
+// Harnesses for src/table.rs (C03, C05, C08, C09, C10, C20). Included as `crate::table::verif` under cfg(kani).
+use super::*;
+use crate::verif_support::dev::{FaultDev, LogDev, TotDev, FAULT};
+use crate::verif_support::spec::{self, MAXN, NB};
+
+fn w(ft: FatType) -> u8 {
+    match ft { FatType::Fat12 => 0, FatType::Fat16 => 1, FatType::Fat32 => 2 }
+}
+
+/// Entries that fit in the NB-byte window for this width.
+fn window_entries(ft: FatType) -> u32 {
+    match ft { FatType::Fat12 => (NB as u32 * 2) / 3, FatType::Fat16 => NB as u32 / 2, FatType::Fat32 => NB as u32 / 4 }
+}
+
+fn any_total(ft: FatType) -> u32 { any_total_upto(ft, MAXN - 2) }
+
+fn any_total_upto(ft: FatType, cap: u32) -> u32 {
+    let total: u32 = kani::any();
+    let max = core::cmp::min(core::cmp::min(window_entries(ft), MAXN) - 2, cap);
+    kani::assume(total >= 1 && total <= max);
+    total
+}
+
+// ------------------------------------------------------------------------------------------- decode / encode (C08, C10)
+
+fn get_decode(ft: FatType) {
+    let data: [u8; NB] = kani::any();
+    let mut dev = TotDev::<NB>::new(data);
+    let c: u32 = kani::any();
+    kani::assume(c < window_entries(ft));
+    let r = read_fat::<_, ()>(&mut dev, ft, c);
+    assert!(!dev.oob && dev.writes == 0);
+    let v = spec::raw(w(ft), &data, c);
+    let cls = spec::classify(w(ft), v);
+    match r {
+        Ok(FatValue::Free) => assert!(cls == 0),
+        Ok(FatValue::Data(n)) => assert!(cls == 1 && n == v),
+        Ok(FatValue::Bad) => assert!(cls == 2),
+        Ok(FatValue::EndOfChain) => assert!(cls == 3),
+        Err(_) => assert!(false),
+    }
+    kani::cover!(cls == 0);
+    kani::cover!(cls == 1);
+    kani::cover!(cls == 2);
+    kani::cover!(cls == 3 && v != spec::eoc_written(w(ft))); // an end-of-chain marker the library itself never writes
+    if ft == FatType::Fat32 {
+        kani::cover!(spec::raw32_full(&data, c) >> 28 != 0 && cls == 1); // reserved high bits set on a link
+    }
+}
+/// C08: FAT entry decoding equals the specification's classification for every raw value (all end-of-chain
+/// markers, bad-cluster mark, FAT32 high nibble ignored).
+#[kani::proof]
+#[kani::unwind(6)]
+fn fat_get_decode12() { get_decode(FatType::Fat12); }
+#[kani::proof]
+#[kani::unwind(6)]
+fn fat_get_decode16() { get_decode(FatType::Fat16); }
+#[kani::proof]
+#[kani::unwind(6)]
+fn fat_get_decode32() { get_decode(FatType::Fat32); }
+
+fn set_frame(ft: FatType) {
+    let data: [u8; NB] = kani::any();
+    let mut dev = TotDev::<NB>::new(data);
+    let n = window_entries(ft);
+    let c: u32 = kani::any();
+    kani::assume(c < n);
+    let sel: u8 = kani::any();
+    let link: u32 = kani::any();
+    kani::assume(link >= 2 && link < spec::bad_mark(w(ft)));
+    let val = match sel & 3 { 0 => FatValue::Free, 1 => FatValue::Bad, 2 => FatValue::EndOfChain, _ => FatValue::Data(link) };
+    let r = write_fat::<_, ()>(&mut dev, ft, c, val);
+    assert!(r.is_ok() && !dev.oob);
+    // the written entry decodes to the value written
+    let v = spec::raw(w(ft), &dev.data, c);
+    match val {
+        FatValue::Free => assert!(v == 0),
+        FatValue::Bad => assert!(v == spec::bad_mark(w(ft))),
+        FatValue::EndOfChain => assert!(v == spec::eoc_written(w(ft))),
+        FatValue::Data(x) => assert!(v == x),
+    }
+    // FAT32: the reserved top four bits of the entry survive the update
+    if ft == FatType::Fat32 {
+        assert!(spec::raw32_full(&dev.data, c) & 0xF000_0000 == spec::raw32_full(&data, c) & 0xF000_0000);
+        kani::cover!(spec::raw32_full(&data, c) & 0xF000_0000 != 0);
+    }
+    // every other entry is unchanged (FAT12 neighbours share a byte with the written entry)
+    let k: u32 = kani::any();
+    kani::assume(k < n && k != c);
+    assert!(spec::raw(w(ft), &dev.data, k) == spec::raw(w(ft), &data, k));
+    if ft == FatType::Fat32 {
+        assert!(spec::raw32_full(&dev.data, k) == spec::raw32_full(&data, k));
+    }
+    kani::cover!(k + 1 == c);
+    kani::cover!(k == c + 1);
+    // bytes after the last whole entry of the window are untouched
+    if ft == FatType::Fat12 { assert!(dev.data[NB - 1] == data[NB - 1] || c == n - 1); }
+}
+/// C08/C10: writing one entry changes exactly that entry (FAT12 nibble sharing, FAT32 reserved bits).
+#[kani::proof]
+#[kani::unwind(6)]
+fn fat_set_frame12() { set_frame(FatType::Fat12); }
+#[kani::proof]
+#[kani::unwind(6)]
+fn fat_set_frame16() { set_frame(FatType::Fat16); }
+#[kani::proof]
+#[kani::unwind(6)]
+fn fat_set_frame32() { set_frame(FatType::Fat32); }
+
+/// must-fail twin: claims FAT32 updates clear the reserved bits.
+#[kani::proof]
+#[kani::unwind(6)]
+fn twin_fat32_set_clears_reserved() {
+    let data: [u8; NB] = kani::any();
+    let mut dev = TotDev::<NB>::new(data);
+    let c: u32 = kani::any();
+    kani::assume(c < 8);
+    let _ = write_fat::<_, ()>(&mut dev, FatType::Fat32, c, FatValue::EndOfChain);
+    assert!(spec::raw32_full(&dev.data, c) >> 28 == 0);
+}
+
+// ------------------------------------------------------------------------------------------- allocation (C03, C05, C10, C20)
+
+fn alloc_check(ft: FatType) {
+    let data: [u8; NB] = kani::any();
+    let old = data;
+    let mut dev = TotDev::<NB>::new(data);
+    let total = any_total(ft);
+    let n = total + 2;
+    let rank: [u8; MAXN as usize] = kani::any();
+    let wf_before = spec::wf(w(ft), &old, n, &rank);
+    // hint as produced by FsInfoSector (never 0 or 1; may be past the end: then the scan starts at 2)
+    let hint: Option<u32> = kani::any();
+    if let Some(h) = hint { kani::assume(h >= 2); }
+    let prev: Option<u32> = kani::any();
+    if let Some(p) = prev {
+        // callers pass the last cluster of a chain
+        kani::assume(p >= 2 && p < n && spec::classify(w(ft), spec::raw(w(ft), &old, p)) == 3);
+    }
+    let free_before = spec::count_free(w(ft), &old, n);
+    let r = alloc_cluster::<_, ()>(&mut dev, ft, prev, hint, total);
+    assert!(!dev.oob);
+    match r {
+        Ok(c) => {
+            // in range: never a reserved entry, never a padding entry past the last cluster
+            assert!(c >= 2 && c < n);
+            // it was free, now it terminates a chain
+            assert!(spec::raw(w(ft), &old, c) == 0);
+            assert!(spec::raw(w(ft), &dev.data, c) == spec::eoc_written(w(ft)));
+            // wrap-around: first free at or after the hint, else first free from the start
+            if let Some(h) = hint {
+                if h < n {
+                    let k: u32 = kani::any();
+                    kani::assume(k >= 2 && k < n);
+                    if c >= h { if k >= h && k < c { assert!(spec::raw(w(ft), &old, k) != 0); } }
+                    else { if k >= h || k < c { assert!(spec::raw(w(ft), &old, k) != 0); } }
+                    kani::cover!(c < h);          // the scan wrapped
+                    kani::cover!(h == n - 1 && c < h);
+                }
+                kani::cover!(h == n);             // hint just past the last cluster
+                kani::cover!(h > n);
+            }
+            // linked from prev
+            if let Some(p) = prev { assert!(spec::raw(w(ft), &dev.data, p) == c); }
+            // frame: every other entry (including the reserved entries 0 and 1 and the padding) is bit-identical
+            let k: u32 = kani::any();
+            kani::assume(k < window_entries(ft));
+            if k != c && Some(k) != prev {
+                assert!(spec::raw(w(ft), &dev.data, k) == spec::raw(w(ft), &old, k));
+            }
+            if ft == FatType::Fat32 {
+                assert!(spec::raw32_full(&dev.data, k) & 0xF000_0000 == spec::raw32_full(&old, k) & 0xF000_0000);
+            }
+            // accounting: exactly one free cluster fewer
+            assert!(spec::count_free(w(ft), &dev.data, n) + 1 == free_before);
+            // structural invariant preserved (new cluster gets a rank above its predecessor)
+            if wf_before {
+                let mut rank2 = rank;
+                rank2[c as usize] = kani::any();
+                if let Some(p) = prev { kani::assume(rank2[c as usize] > rank2[p as usize]); }
+                // c had no predecessor besides prev: nobody linked to a free cluster in a consistent table
+                if !spec::has_pred(w(ft), &old, n, c) {
+                    assert!(spec::wf(w(ft), &dev.data, n, &rank2));
+                }
+            }
+            kani::cover!(prev.is_some() && wf_before);
+        }
+        Err(Error::NotEnoughSpace) => {
+            // out-of-space only when no free cluster exists
+            assert!(free_before == 0);
+            let k: u32 = kani::any();
+            kani::assume(k < window_entries(ft));
+            assert!(spec::raw(w(ft), &dev.data, k) == spec::raw(w(ft), &old, k));
+            kani::cover!(hint.is_some());
+        }
+        Err(_) => { assert!(false); }
+    }
+}
+/// C03/C05/C10/C20: alloc_cluster on a fully symbolic table, hint and predecessor.
+#[kani::proof]
+#[kani::unwind(12)]
+fn alloc12() { alloc_check(FatType::Fat12); }
+#[kani::proof]
+#[kani::unwind(12)]
+fn alloc16() { alloc_check(FatType::Fat16); }
+#[kani::proof]
+#[kani::unwind(12)]
+fn alloc32() { alloc_check(FatType::Fat32); }
+
+/// must-fail twin: claims allocation never wraps (result is always at or after the hint).
+#[kani::proof]
+#[kani::unwind(12)]
+fn twin_alloc_never_wraps() {
+    let data: [u8; NB] = kani::any();
+    let mut dev = TotDev::<NB>::new(data);
+    let hint: u32 = kani::any();
+    kani::assume(hint >= 2 && hint < 8);
+    if let Ok(c) = alloc_cluster::<_, ()>(&mut dev, FatType::Fat16, None, Some(hint), 6) {
+        assert!(c >= hint);
+    }
+}
+
+// ------------------------------------------------------------------------------------------- free / truncate (C03, C05)
+
+/// Walk the chain starting at `head` in `d`; returns (membership bitmap, length, last cluster).
+fn chain_of(ft: FatType, d: &[u8; NB], n: u32, head: u32) -> ([bool; MAXN as usize], u32, u32) {
+    let mut m = [false; MAXN as usize];
+    let mut cur = head;
+    let mut len = 0;
+    let mut k = 0;
+    while k < MAXN - 2 {
+        m[cur as usize] = true;
+        len += 1;
+        let v = spec::raw(w(ft), d, cur);
+        if spec::classify(w(ft), v) == 1 && v >= 2 && v < n { cur = v; } else { break; }
+        k += 1;
+    }
+    (m, len, cur)
+}
+
+fn free_check(ft: FatType, cap: u32) {
+    let data: [u8; NB] = kani::any();
+    let old = data;
+    let total = any_total_upto(ft, cap);
+    let n = total + 2;
+    let rank: [u8; MAXN as usize] = kani::any();
+    kani::assume(spec::wf(w(ft), &old, n, &rank));
+    let head: u32 = kani::any();
+    kani::assume(head >= 2 && head < n);
+    let hv = spec::classify(w(ft), spec::raw(w(ft), &old, head));
+    kani::assume(hv == 1 || hv == 3);                       // an allocated cluster ...
+    kani::assume(!spec::has_pred(w(ft), &old, n, head));     // ... that starts a chain (referenced by a directory entry)
+    let (member, len, _) = chain_of(ft, &old, n, head);
+    let free_before = spec::count_free(w(ft), &old, n);
+    let mut dev = TotDev::<NB>::new(data);
+    let r = {
+        let mut it = ClusterIterator::<&mut TotDev<NB>, (), TotDev<NB>>::new(&mut dev, ft, head);
+        it.free()
+    };
+    assert!(!dev.oob);
+    assert!(matches!(r, Ok(x) if x == len));
+    let k: u32 = kani::any();
+    kani::assume(k < window_entries(ft));
+    if k < n && k >= 2 && member[k as usize] {
+        assert!(spec::raw(w(ft), &dev.data, k) == 0);
+    } else {
+        assert!(spec::raw(w(ft), &dev.data, k) == spec::raw(w(ft), &old, k));
+    }
+    if ft == FatType::Fat32 {
+        assert!(spec::raw32_full(&dev.data, k) & 0xF000_0000 == spec::raw32_full(&old, k) & 0xF000_0000);
+    }
+    assert!(spec::count_free(w(ft), &dev.data, n) == free_before + len);
+    assert!(spec::wf(w(ft), &dev.data, n, &rank));
+    kani::cover!(len == 1);
+    kani::cover!(len >= 3);
+}
+/// C03/C05: freeing a chain zeroes exactly its clusters, returns its length, keeps the invariant.
+#[kani::proof]
+#[kani::unwind(12)]
+fn free12() { free_check(FatType::Fat12, 5); }
+#[kani::proof]
+#[kani::unwind(12)]
+fn free12_deep() { free_check(FatType::Fat12, 8); }
+#[kani::proof]
+#[kani::unwind(12)]
+fn free16() { free_check(FatType::Fat16, 5); }
+#[kani::proof]
+#[kani::unwind(12)]
+fn free16_deep() { free_check(FatType::Fat16, 8); }
+#[kani::proof]
+#[kani::unwind(12)]
+fn free32() { free_check(FatType::Fat32, 5); }
+#[kani::proof]
+#[kani::unwind(12)]
+fn free32_deep() { free_check(FatType::Fat32, 8); }
+
+fn truncate_check(ft: FatType, cap: u32) {
+    let data: [u8; NB] = kani::any();
+    let old = data;
+    let total = any_total_upto(ft, cap);
+    let n = total + 2;
+    let rank: [u8; MAXN as usize] = kani::any();
+    kani::assume(spec::wf(w(ft), &old, n, &rank));
+    let at: u32 = kani::any();
+    kani::assume(at >= 2 && at < n);
+    let av = spec::raw(w(ft), &old, at);
+    let ac = spec::classify(w(ft), av);
+    kani::assume(ac == 1 || ac == 3);                       // an allocated cluster of some chain
+    // tail = chain starting at the successor of `at`
+    let (member, len, _) = if ac == 1 { chain_of(ft, &old, n, av) } else { ([false; MAXN as usize], 0, 0) };
+    let free_before = spec::count_free(w(ft), &old, n);
+    let mut dev = TotDev::<NB>::new(data);
+    let r = {
+        let mut it = ClusterIterator::<&mut TotDev<NB>, (), TotDev<NB>>::new(&mut dev, ft, at);
+        it.truncate()
+    };
+    assert!(!dev.oob);
+    assert!(matches!(r, Ok(x) if x == len));
+    assert!(spec::raw(w(ft), &dev.data, at) == spec::eoc_written(w(ft)));
+    let k: u32 = kani::any();
+    kani::assume(k < window_entries(ft) && k != at);
+    if k < n && k >= 2 && member[k as usize] {
+        assert!(spec::raw(w(ft), &dev.data, k) == 0);
+    } else {
+        assert!(spec::raw(w(ft), &dev.data, k) == spec::raw(w(ft), &old, k));
+    }
+    assert!(spec::count_free(w(ft), &dev.data, n) == free_before + len);
+    assert!(spec::wf(w(ft), &dev.data, n, &rank));
+    kani::cover!(len == 0);
+    kani::cover!(len >= 2);
+}
+/// C02/C03/C05: truncating at a cluster makes it the chain end and frees exactly the tail.
+#[kani::proof]
+#[kani::unwind(12)]
+fn truncate12() { truncate_check(FatType::Fat12, 5); }
+#[kani::proof]
+#[kani::unwind(12)]
+fn truncate12_deep() { truncate_check(FatType::Fat12, 8); }
+#[kani::proof]
+#[kani::unwind(12)]
+fn truncate16() { truncate_check(FatType::Fat16, 5); }
+#[kani::proof]
+#[kani::unwind(12)]
+fn truncate16_deep() { truncate_check(FatType::Fat16, 8); }
+#[kani::proof]
+#[kani::unwind(12)]
+fn truncate32() { truncate_check(FatType::Fat32, 5); }
+#[kani::proof]
+#[kani::unwind(12)]
+fn truncate32_deep() { truncate_check(FatType::Fat32, 8); }
+
+/// must-fail twin: claims truncate frees the cluster it is applied to.
+#[kani::proof]
+#[kani::unwind(12)]
+fn twin_truncate_frees_current() {
+    let mut data = [0u8; NB];
+    data[4] = 3; data[6] = 0xFF; data[7] = 0xFF; // FAT16: 2 -> 3 -> EOC
+    let mut dev = TotDev::<NB>::new(data);
+    {
+        let mut it = ClusterIterator::<&mut TotDev<NB>, (), TotDev<NB>>::new(&mut dev, FatType::Fat16, 2);
+        let _ = it.truncate();
+    }
+    assert!(spec::raw16(&dev.data, 2) == 0);
+}
+
+fn count_check(ft: FatType) {
+    let data: [u8; NB] = kani::any();
+    let mut dev = TotDev::<NB>::new(data);
+    let total = any_total(ft);
+    let r = count_free_clusters::<_, ()>(&mut dev, ft, total);
+    assert!(!dev.oob && dev.writes == 0);
+    let c = spec::count_free(w(ft), &data, total + 2);
+    assert!(matches!(r, Ok(x) if x == c));
+    kani::cover!(c == 0);
+    kani::cover!(c == total && total >= 3);
+}
+/// C05: the counted number of free clusters equals the number of zero entries among clusters 2..total+2.
+#[kani::proof]
+#[kani::unwind(12)]
+fn count_free12() { count_check(FatType::Fat12); }
+#[kani::proof]
+#[kani::unwind(12)]
+fn count_free16() { count_check(FatType::Fat16); }
+#[kani::proof]
+#[kani::unwind(12)]
+fn count_free32() { count_check(FatType::Fat32); }
+
+/// C08: the cluster iterator follows fragmented / out-of-order chains exactly as the links say.
+#[kani::proof]
+#[kani::unwind(12)]
+fn iter_follows_links16() {
+    let data: [u8; NB] = kani::any();
+    let total = any_total(FatType::Fat16);
+    let n = total + 2;
+    let rank: [u8; MAXN as usize] = kani::any();
+    kani::assume(spec::wf(1, &data, n, &rank));
+    let head: u32 = kani::any();
+    kani::assume(head >= 2 && head < n);
+    let mut dev = TotDev::<NB>::new(data);
+    let mut it = ClusterIterator::<&mut TotDev<NB>, (), TotDev<NB>>::new(&mut dev, FatType::Fat16, head);
+    let mut cur = head;
+    let mut steps = 0;
+    while steps < MAXN {
+        let v = spec::raw16(&data, cur);
+        match it.next() {
+            Some(Ok(nx)) => { assert!(spec::classify(1, v) == 1 && nx == v); cur = nx; }
+            Some(Err(_)) => assert!(false),
+            None => { assert!(spec::classify(1, v) != 1); break; }
+        }
+        steps += 1;
+    }
+    kani::cover!(steps >= 3 && cur < head);  // a chain that runs backwards
+}
+
+// ------------------------------------------------------------------------------------------- format_fat (C06, C10)
+
+fn format_fat_check(ft: FatType) {
+    const FB: usize = 48;
+    let mut dev = TotDev::<FB>::new([0u8; FB]);
+    let media: u8 = kani::any();
+    let bytes_per_fat: u64 = kani::any();
+    kani::assume(bytes_per_fat == 24 || bytes_per_fat == 48);
+    let entries = (bytes_per_fat * 8 / ft.bits_per_fat_entry() as u64) as u32;
+    let total: u32 = kani::any();
+    kani::assume(total >= 1 && total <= 64 && total + 2 <= entries);
+    let r = format_fat::<_, ()>(&mut dev, ft, media, bytes_per_fat, total);
+    assert!(r.is_ok() && !dev.oob);
+    let d = &dev.data;
+    // reserved entries: media descriptor with all other bits set, then an end-of-chain pattern
+    match ft {
+        FatType::Fat12 => assert!(d[0] == media && d[1] == 0xFF && d[2] == 0xFF),
+        FatType::Fat16 => assert!(d[0] == media && d[1] == 0xFF && d[2] == 0xFF && d[3] == 0xFF),
+        FatType::Fat32 => assert!(d[0] == media && d[1] == 0xFF && d[2] == 0xFF && d[3] == 0x0F && d[4] == 0xFF && d[5] == 0xFF && d[6] == 0xFF && d[7] == 0xFF),
+    }
+    let k: u32 = kani::any();
+    kani::assume(k >= 2 && k < entries);
+    let v = match ft { FatType::Fat12 => spec::raw12(&d[..], k), FatType::Fat16 => spec::raw16(&d[..], k), FatType::Fat32 => spec::raw32_full(&d[..], k) & 0x0FFF_FFFF };
+    if k < total + 2 { assert!(v == 0); } else { assert!(v >= spec::eoc_min(w(ft))); } // data clusters free, padding unusable
+    kani::cover!(total + 2 < entries);
+    kani::cover!(total + 2 == entries);
+}
+/// C06/C10: a freshly formatted table has the reserved entries set, all data clusters free and the padding entries
+/// past the last cluster marked used.
+#[kani::proof]
+#[kani::unwind(34)]
+fn format_fat12() { format_fat_check(FatType::Fat12); }
+#[kani::proof]
+#[kani::unwind(34)]
+fn format_fat16() { format_fat_check(FatType::Fat16); }
+#[kani::proof]
+#[kani::unwind(34)]
+fn format_fat32() { format_fat_check(FatType::Fat32); }
+
+// ------------------------------------------------------------------------------------------- large volumes (C20)
+
+fn large_access(ft: FatType) {
+    let mut dev = LogDev::new(u64::MAX);
+    let c: u32 = kani::any();
+    let max = match ft { FatType::Fat12 => 4084 + 2, FatType::Fat16 => 65524 + 2, FatType::Fat32 => 0x0FFF_FFF4 + 2 };
+    kani::assume(c < max);
+    let exp_off = match ft { FatType::Fat12 => c as u64 + c as u64 / 2, FatType::Fat16 => c as u64 * 2, FatType::Fat32 => c as u64 * 4 };
+    let exp_len = match ft { FatType::Fat32 => 4, _ => 2 };
+    let r = read_fat::<_, ()>(&mut dev, ft, c);
+    assert!(r.is_ok());
+    assert!(dev.nreads == 1 && dev.r_off == exp_off && dev.r_len == exp_len && dev.nw == 0);
+    let r = write_fat::<_, ()>(&mut dev, ft, c, FatValue::EndOfChain);
+    assert!(r.is_ok());
+    assert!(dev.nw == 1 && dev.w_off[0] == exp_off && dev.w_len[0] == exp_len);
+    kani::cover!(c == max - 1);
+}
+/// C20: table accesses for every cluster number up to the width's maximum touch exactly the entry's bytes (no
+/// 32-bit overflow in cluster*4, cluster*2, cluster+cluster/2).
+#[kani::proof]
+#[kani::unwind(6)]
+fn fat_access_large12() { large_access(FatType::Fat12); }
+#[kani::proof]
+#[kani::unwind(6)]
+fn fat_access_large16() { large_access(FatType::Fat16); }
+#[kani::proof]
+#[kani::unwind(6)]
+fn fat_access_large32() { large_access(FatType::Fat32); }
+
+/// C20: an allocation scan on a huge FAT32 table starts at the hinted entry's byte offset and a hint at or past the
+/// end restarts from cluster 2 (device returns zero entries, so the first probed entry is taken).
+#[kani::proof]
+#[kani::unwind(6)]
+fn alloc_scan_start_large32() {
+    let mut dev = LogDev::new(u64::MAX);
+    let total: u32 = kani::any();
+    kani::assume(total >= 1 && total <= 0x0FFF_FFF4);
+    let hint: Option<u32> = kani::any();
+    if let Some(h) = hint { kani::assume(h >= 2); }
+    let r = alloc_cluster::<_, ()>(&mut dev, FatType::Fat32, None, hint, total);
+    let start = match hint { Some(h) if h < total + 2 => h, _ => 2 };
+    assert!(matches!(r, Ok(c) if c == start));
+    assert!(dev.nw == 1 && dev.w_off[0] == start as u64 * 4 && dev.w_len[0] == 4);
+    kani::cover!(matches!(hint, Some(h) if h == total + 2));
+    kani::cover!(matches!(hint, Some(h) if h == total + 1 && total > 0x0800_0000));
+}
+
+// ------------------------------------------------------------------------------------------- status flags (C12)
+
+/// C12: the FAT16/FAT32 clean-shutdown / hard-error bits of entry 1 are reported as dirty / io_error.
+#[kani::proof]
+#[kani::unwind(6)]
+fn fat_flags_decode() {
+    let data: [u8; NB] = kani::any();
+    let mut dev = TotDev::<NB>::new(data);
+    let sel: u8 = kani::any();
+    let ft = match sel % 3 { 0 => FatType::Fat12, 1 => FatType::Fat16, _ => FatType::Fat32 };
+    let r = read_fat_flags::<_, ()>(&mut dev, ft);
+    let f = match r { Ok(f) => f, Err(_) => { assert!(false); return; } };
+    match ft {
+        FatType::Fat12 => assert!(!f.dirty && !f.io_error),
+        FatType::Fat16 => { let e = spec::raw16(&data, 1); assert!(f.dirty == (e & 0x8000 == 0) && f.io_error == (e & 0x4000 == 0)); }
+        FatType::Fat32 => { let e = spec::raw32_full(&data, 1); assert!(f.dirty == (e & 0x0800_0000 == 0) && f.io_error == (e & 0x0400_0000 == 0)); }
+    }
+    assert!(dev.writes == 0);
+    kani::cover!(f.dirty && ft == FatType::Fat32);
+    kani::cover!(!f.dirty && ft == FatType::Fat16);
+}
+
+// ------------------------------------------------------------------------------------------- faults (C09)
+
+fn fault_table(ft: FatType) -> [u8; NB] {
+    // chain 2 -> 3 -> 5 -> EOC, cluster 4 in use by another chain (EOC), 6.. free; 8 entries
+    let mut d = [0u8; NB];
+    match ft {
+        FatType::Fat12 => {
+            // entries: 0=FF8 1=FFF 2=003 3=005 4=FFF 5=FFF 6=000 7=000
+            d[0] = 0xF8; d[1] = 0xFF; d[2] = 0xFF;
+            d[3] = 0x03; d[4] = 0x50; d[5] = 0x00;
+            d[6] = 0xFF; d[7] = 0xFF; d[8] = 0xFF;
+        }
+        FatType::Fat16 => {
+            d[0] = 0xF8; d[1] = 0xFF; d[2] = 0xFF; d[3] = 0xFF;
+            d[4] = 3; d[6] = 5; d[8] = 0xFF; d[9] = 0xFF; d[10] = 0xFF; d[11] = 0xFF;
+        }
+        FatType::Fat32 => {
+            d[0] = 0xF8; d[1] = 0xFF; d[2] = 0xFF; d[3] = 0x0F; d[4] = 0xFF; d[5] = 0xFF; d[6] = 0xFF; d[7] = 0x0F;
+            d[8] = 3; d[12] = 5; d[16] = 0xFF; d[17] = 0xFF; d[18] = 0xFF; d[19] = 0x0F; d[20] = 0xFF; d[21] = 0xFF; d[22] = 0xFF; d[23] = 0x0F;
+        }
+    }
+    d
+}
+
+fn any_ft() -> FatType {
+    let sel: u8 = kani::any();
+    match sel % 3 { 0 => FatType::Fat12, 1 => FatType::Fat16, _ => FatType::Fat32 }
+}
+
+fn fault_free_check(ft: FatType, truncate: bool) {
+    let fault_at: u32 = kani::any();
+    let mut dev = FaultDev::<NB>::new(fault_table(ft), fault_at, 40);
+    let r = {
+        let mut it = ClusterIterator::<&mut FaultDev<NB>, crate::verif_support::dev::Tok, FaultDev<NB>>::new(&mut dev, ft, 2);
+        if truncate { it.truncate() } else { it.free() }
+    };
+    assert!(!dev.oob);
+    if dev.fired {
+        assert!(matches!(r, Err(Error::Io(t)) if t == FAULT));
+    } else {
+        assert!(matches!(r, Ok(x) if x == if truncate { 2 } else { 3 }));
+    }
+    kani::cover!(dev.fired && fault_at >= 3);
+    kani::cover!(!dev.fired);
+}
+/// C09: a single device fault at ANY position during chain free / truncate surfaces as Error::Io(the device's
+/// error) and the loop terminates (device-call budget).
+#[kani::proof]
+#[kani::unwind(44)]
+fn fault_free12() { fault_free_check(FatType::Fat12, false); }
+#[kani::proof]
+#[kani::unwind(44)]
+fn fault_free16() { fault_free_check(FatType::Fat16, false); }
+#[kani::proof]
+#[kani::unwind(44)]
+fn fault_free32() { fault_free_check(FatType::Fat32, false); }
+#[kani::proof]
+#[kani::unwind(44)]
+fn fault_truncate12() { fault_free_check(FatType::Fat12, true); }
+#[kani::proof]
+#[kani::unwind(44)]
+fn fault_truncate16() { fault_free_check(FatType::Fat16, true); }
+#[kani::proof]
+#[kani::unwind(44)]
+fn fault_truncate32() { fault_free_check(FatType::Fat32, true); }
+
+fn mark_used(ft: FatType, t: &mut [u8; NB], c: u32) {
+    match ft {
+        FatType::Fat12 => {
+            let o = (c + c / 2) as usize;
+            if c & 1 == 0 { t[o] = 0xFF; t[o + 1] |= 0x0F; } else { t[o] |= 0xF0; t[o + 1] = 0xFF; }
+        }
+        FatType::Fat16 => { t[(c * 2) as usize] = 0xFF; t[(c * 2 + 1) as usize] = 0xFF; }
+        FatType::Fat32 => { let o = (c * 4) as usize; t[o] = 0xFF; t[o + 1] = 0xFF; t[o + 2] = 0xFF; t[o + 3] = 0x0F; }
+    }
+}
+
+/// variant 0: hint None, clusters 6 and 7 free            -> Ok(6)
+/// variant 1: hint 7, cluster 7 used, 6 free (scan wraps)  -> Ok(6)
+/// variant 2: hint 4, volume full                          -> NotEnoughSpace
+fn fault_alloc_check(ft: FatType, variant: u8) {
+    let fault_at: u32 = kani::any();
+    let mut t = fault_table(ft);
+    let hint = match variant { 0 => None, 1 => Some(7), _ => Some(4) };
+    if variant >= 1 { mark_used(ft, &mut t, 7); }
+    if variant == 2 { mark_used(ft, &mut t, 6); }
+    let mut dev = FaultDev::<NB>::new(t, fault_at, 40);
+    let r = alloc_cluster::<_, crate::verif_support::dev::Tok>(&mut dev, ft, Some(5), hint, 6);
+    assert!(!dev.oob);
+    if dev.fired {
+        assert!(matches!(r, Err(Error::Io(t)) if t == FAULT));
+    } else if variant == 2 {
+        assert!(matches!(r, Err(Error::NotEnoughSpace)));
+    } else {
+        assert!(matches!(r, Ok(6)));
+    }
+    kani::cover!(dev.fired && fault_at >= 2);
+    kani::cover!(!dev.fired);
+}
+macro_rules! fault_alloc_case {
+    ($name:ident, $ft:expr, $v:expr) => {
+        #[kani::proof]
+        #[kani::unwind(44)]
+        fn $name() { fault_alloc_check($ft, $v); }
+    };
+}
+/// C09: a device fault during the hinted free-cluster scan / the two table updates is reported as Error::Io, never
+/// masked as out-of-space or swallowed by the wrap-around retry.
+fault_alloc_case!(fault_alloc12_nohint, FatType::Fat12, 0);
+fault_alloc_case!(fault_alloc12_wrap, FatType::Fat12, 1);
+fault_alloc_case!(fault_alloc12_full, FatType::Fat12, 2);
+fault_alloc_case!(fault_alloc16_nohint, FatType::Fat16, 0);
+fault_alloc_case!(fault_alloc16_wrap, FatType::Fat16, 1);
+fault_alloc_case!(fault_alloc16_full, FatType::Fat16, 2);
+fault_alloc_case!(fault_alloc32_nohint, FatType::Fat32, 0);
+fault_alloc_case!(fault_alloc32_wrap, FatType::Fat32, 1);
+fault_alloc_case!(fault_alloc32_full, FatType::Fat32, 2);
+
+/// C09: faults during free-cluster counting and flag reading.
+#[kani::proof]
+#[kani::unwind(70)]
+fn fault_count_and_flags() {
+    let ft = any_ft();
+    let fault_at: u32 = kani::any();
+    let mut dev = FaultDev::<NB>::new(fault_table(ft), fault_at, 64);
+    let which: bool = kani::any();
+    if which {
+        let r = count_free_clusters::<_, crate::verif_support::dev::Tok>(&mut dev, ft, 6);
+        if dev.fired { assert!(matches!(r, Err(Error::Io(t)) if t == FAULT)); } else { assert!(matches!(r, Ok(2))); }
+    } else {
+        let r = read_fat_flags::<_, crate::verif_support::dev::Tok>(&mut dev, ft);
+        if dev.fired { assert!(matches!(r, Err(Error::Io(t)) if t == FAULT)); } else { assert!(r.is_ok()); }
+    }
+    kani::cover!(dev.fired && which);
+    kani::cover!(dev.fired && !which);
+}
+
+/// must-fail twin for the fault harnesses: claims the operation succeeds whatever the fault position.
+#[kani::proof]
+#[kani::unwind(44)]
+fn twin_fault_free_always_ok() {
+    let fault_at: u32 = kani::any();
+    let mut dev = FaultDev::<NB>::new(fault_table(FatType::Fat16), fault_at, 40);
+    let r = {
+        let mut it = ClusterIterator::<&mut FaultDev<NB>, crate::verif_support::dev::Tok, FaultDev<NB>>::new(&mut dev, FatType::Fat16, 2);
+        it.free()
+    };
+    assert!(r.is_ok());
+}
